@@ -41,6 +41,9 @@ pub trait Adapter {
     fn proof_obs(_name: &str, _pf: &Pf<Self>, _out: &mut Out) {}
     fn key_obs(_ck: &CK<Self>, _vk: &VK<Self>, _out: &mut Out) {}
     /// C19: the shape parameters a size formula depends on (vector lengths, option tags)
+    /// field draws the committer / the prover take beyond the generic estimate (schemes that always blind)
+    fn extra_commit_draws(_c: &Case) -> usize { 0 }
+    fn open_draws(_c: &Case, _npolys: usize) -> usize { 0 }
     fn size_shape_comm(_cm: &Cm<Self>) -> Vec<String> { vec![] }
     fn size_shape_proof(_pf: &Pf<Self>) -> Vec<String> { vec![] }
     /// scheme-specific commitment mutation (e.g. dropping the shifted part)
@@ -197,6 +200,7 @@ where
         // field draws of the committer's RNG, replayed for the model (tape) and counted
         let mut need = 8usize;
         for i in 0..n { need += 2 * (opt_usize(c.str1(&format!("hiding.{}", i))).unwrap_or(0) + 3); }
+        need += A::extra_commit_draws(c);
         let (tape, cum) = replay(c.u64_1("commit_seed"), need.min(4096), |r| <A::F as ark_std::UniformRand>::rand(r));
         out.input("ctape", &fs_to_strs(&tape));
         out.obs1("commit_draws", "N", draws_of(&cum, crng.bytes).to_string());
@@ -285,6 +289,14 @@ where
         };
         let mut orng = CountingRng::new(oseed);
         let mut vrng = CountingRng::new(cseed);
+        {
+            // field draws of the prover's RNG for this operation (schemes whose prover is randomised)
+            let k = A::open_draws(c, n);
+            if k > 0 {
+                let (tape, _) = replay(oseed, k.min(8192), |r| <A::F as ark_std::UniformRand>::rand(r));
+                out.input(&format!("otape.{}", t), &fs_to_strs(&tape));
+            }
+        }
         match op[0].as_str() {
             "single" => {
                 let pj: usize = op[1].parse().unwrap();
